@@ -248,7 +248,8 @@ example : (match reload (save PN L5 ⟨(update shifted.st 2 1).1, shifted.tr⟩)
 
 /-! ## Non-vacuity: `tinyFixed` satisfies the hypotheses, a history with a failed save and a retry runs -/
 
-theorem tinyFixed_ok : BaseOK tinyFixed [] where
+/-- `tinyFixed` is a base document in the sense of the theorems -/
+example : BaseOK tinyFixed [] where
   start_le := by decide
   chain := rfl
   pairs_entry := by intro p hp; simp [allPairs] at hp
